@@ -1766,6 +1766,10 @@ class AbelianArray(BlockBase):
         if isinstance(axis, int):
             axis = (axis,)
 
+        if axis is not None:
+            # handle negative axes
+            axis = tuple(ax + x.ndim if ax < 0 else ax for ax in axis)
+
         keep = []
         selector = []
         new_indices = []
